@@ -14,14 +14,18 @@ META = {
                    'compareTransitionToMatch[Fuzzy], processActiveTransition, expandDateTuple, createMatch) is summarised on both '
                    'sides into guarded normal forms under a per-pair role map (accessor/field names, suffix constants, sentinels) '
                    'and compared on every ordering of the compared terms consistent with the declared type facts; look-up loop '
-                   'shapes; date-tuple normal form (C++ by interval analysis under C07-R1, Python through datetime arithmetic).',
+                   'shapes; date-tuple normal form (C++ by interval analysis under C07-R1, Python through datetime arithmetic); '
+                   'match-window pairing of the two init functions; typestate of the recycled prior slot; E-SEQ (explicit-state abstract '
+                   'evaluation of the Python IR, acv/aeval.py): the two active selectors on every sorted abstract candidate list up to six '
+                   'entries, and finder + selector pipelines for both candidate finders on a family of small policies and match '
+                   'intervals; decision table of the "A/B" abbreviation half on both sides.',
     'decided': 'the listed helper pairs return the same outcome (result and field effects) for every ordering of their inputs; '
                'both look-up loops keep the last transition whose start <= query; both sides canonicalise date tuples to '
-               '0 <= time-of-day < 24h',
-    'not_decided': 'equality of the two complete algorithms (loops over rules, candidate pools, sorting) and independence of the '
-                   'Python result from its tuning options (the Basic/Optimized finders and Basic/InPlace selectors are different '
-                   'algorithms by design): behavioural. Differences seen by reading in loop-bearing code (candidate end year, '
-                   'candidate sort key, prior shift condition, abbreviation precedence) are outside the compared pairs.',
+               '0 <= time-of-day < 24h; both sides use the 14-month window around the cache-key year; the reserved prior slot is '
+               'cleared before use; on the stated abstract families the Python result does not depend on the selector or on the finder; '
+               'both sides choose the same half of an A/B FORMAT for negative, zero and positive DST shifts',
+    'not_decided': 'equality of the two complete algorithms on real zone data at every instant; option independence outside the '
+                   'abstract families (three or more interacting rules, s/u suffixes in the selector inputs, the 13-month window).',
     'assumptions': ['clang 14 parser', 'CPython ast', 'date tuples with equal suffix are totally ordered scalars (both sides compare '
                     'the tuple matching the suffix of the match bound)', 'suffix values are exactly w/s/u (C12-R3 + transformer filter)',
                     'UNTIL time of an era is non-negative (unsigned in C++)'],
@@ -201,6 +205,7 @@ def run(cfg):
     selector_rule(R, zs)
     finder_rule(R, zs)
     abbrev_rule(R, lib, zs)
+    start_until_rule(R, lib, zs)
     return R
 
 
@@ -417,6 +422,219 @@ def abbrev_rule(R, lib, zs):
                     'while offsets agree (e.g. Europe/Dublin in winter, SAVE -1:00)' % ({-1: 'negative', 0: 'zero', 1: 'positive'}[sg], ptab[sg], ctab[sg]))
     elif ptab != want:
         R.violation('R7', c, pf.loc, 'both sides use the table %r; zic names a transition with any non-zero SAVE by the second half: expected %r' % (ptab, want))
+
+
+def effects_final(eff):
+    out = {}
+    for t, v in eff:
+        if t != 'call':
+            out[t] = v
+    return out
+
+
+def start_until_rule(R, lib, zs):
+    """The loop bodies of generateStartUntilTimes (C++) and _generate_start_until_times (Python) are loop-free; their
+    per-iteration effects are summarised (E-GNF) and checked against one signature, which is what makes the two agree:
+      start time of the current transition = transition time - (prev offset + prev delta) + (current offset + current delta);
+      start epoch seconds = epoch seconds of the start date + start time - (current offset + current delta)  [C++: x60];
+      the previous transition's until time is the current transition time, from the second iteration on;
+      the transition becomes `prev` for the next iteration."""
+    R.rule('R8', 'start/until generation: per-iteration effects have the same linear signature on both sides', floor=10)
+
+    def lin(p):
+        l = p.linear_in()
+        if l is None:
+            return None
+        return {repr(Poly.atom(a)): c for a, c in l[0].items()}, l[1]
+
+    def fn_atoms_in(p, suffix, out=None, depth=0):
+        out = [] if out is None else out
+        if depth > 12:
+            return out
+        for a in p.atoms():
+            if a[0] in ('fn', 'init'):
+                if a[0] == 'fn' and a[1].endswith(suffix):
+                    out.append(a)
+                for x in a[2]:
+                    if isinstance(x, tuple) and x and x[0] == 'kw':
+                        fn_atoms_in(_P(x[2]), suffix, out, depth + 1)
+                    elif isinstance(x, tuple):
+                        fn_atoms_in(_P(x), suffix, out, depth + 1)
+        return out
+
+    def guard_set_in_loop(g, lp):
+        """The write of prev.untilDateTime may be guarded by a flag; the flag must then be raised by the loop body
+        (otherwise the write never happens).  Other guard shapes are not judged."""
+        if g == ('true',):
+            return []
+        if g[0] == 'bool':
+            a = _atom(_P(g[1]))
+            if a and a[0] == 'sym':
+                sets = [s for s in lp.a[4] if s.k == 'assign' and s.a[0].k == 'var' and s.a[0].a[0] == a[1]
+                        and s.a[1].k == 'const' and s.a[1].a[0]]
+                if not sets:
+                    return ['prev.untilDateTime is written only when %s is set, and the loop never sets it' % a[1]]
+            return []
+        if g[0] == 'not' and g[1][0] == 'bool':
+            return ['prev.untilDateTime is written only while %s is false' % formula_str(g[1])]
+        R.undecided_obligation('R8', 'untilDateTime-guard', lp.loc, 'guard of the untilDateTime write is not a flag: %s' % formula_str(g))
+        return []
+
+    def expand_uses(fobj, stmts, who, construct):
+        R.instance('R8', construct, fobj.loc)
+        ok = False
+        for ex in all_exprs(stmts):
+            if ex.k == 'call' and ex.a[0].lower().replace('_', '').endswith('expanddatetuple'):
+                argtxt = [path_of(x) or show(x) for x in ex.a[2]][-2:]
+                ok = (len(argtxt) == 2 and argtxt[0].split('.')[0] == who and 'offset' in argtxt[0].lower()
+                      and argtxt[1].split('.')[0] == who and 'delta' in argtxt[1].lower())
+        if not ok:
+            R.violation('R8', construct, fobj.loc, 'the date tuple is not expanded with the offset and delta of `%s`' % who)
+
+    # ---- C++
+    cf = lib.fn(XP + 'generateStartUntilTimes')
+    loops = loops_c = [s for s in cf.body if s.k == 'loop']
+    cc = 'generateStartUntilTimes:iteration'
+    R.instance('R8', cc, cf.loc)
+    if len(loops) != 1:
+        R.violation('R8', cc, cf.loc, 'expected one loop over the transitions')
+    else:
+        lp = loops[0]
+        sx = SymExec(fold_global=lib.global_value)
+        summ = sx.run(cf.name, lp.a[4], {})
+        cur = None
+        base = 'iter'
+        for s in lp.a[4]:
+            if s.k == 'decl' and s.a[2] is not None and s.a[2].k == 'deref':
+                cur = s.a[0]
+                base = path_of(s.a[2]) or base
+        alias = '%s.startDateTime' % base
+        for s in lp.a[4]:
+            if s.k == 'decl' and s.a[2] is not None and (path_of(s.a[2]) or '').endswith('.startDateTime'):
+                alias = s.a[0]
+        want_start = {"%s.transitionTime.minutes" % base: 1, 'prev.offsetMinutes': -1, 'prev.deltaMinutes': -1,
+                      '%s.offsetMinutes' % base: 1, '%s.deltaMinutes' % base: 1}
+        problems = []
+        until_paths = 0
+        for g, kind, res, eff in summ.paths:
+            e = effects_final(eff)
+            st = e.get('%s.startDateTime' % base)
+            a = _atom(_P(st)) if st is not None else None
+            if a is None or a[0] != 'init' or len(a[2]) != 5:
+                problems.append('startDateTime is not built from five components')
+                continue
+            l = lin(_P(a[2][3]))
+            if l is None or l[1] != 0 or l[0] != want_start:
+                problems.append('start minutes are %r, expected tt.minutes - prev.offset - prev.delta + t.offset + t.delta' % _P(a[2][3]))
+            ep = e.get('%s.startEpochSeconds' % base)
+            l = lin(_P(ep)) if ep is not None else None
+            if l is None:
+                problems.append('startEpochSeconds is not a linear form')
+            else:
+                rest = {k: v for k, v in l[0].items() if 'toEpochSeconds' not in k}
+                eps = [k for k in l[0] if 'toEpochSeconds' in k]
+                want_ep = {'%s.minutes' % alias: 60, '%s.offsetMinutes' % base: -60, '%s.deltaMinutes' % base: -60}
+                if len(eps) != 1 or l[0][eps[0]] != 1 or rest != want_ep or l[1] != 0 \
+                        or not all('%s.%s' % (alias, f_) in eps[0] for f_ in ('yearTiny', 'month', 'day')):
+                    problems.append('startEpochSeconds is %r, expected toEpochSeconds(start date) + 60 * (start minutes - t.offset - t.delta)' % _P(ep))
+            if 'prev.untilDateTime' in e:
+                until_paths += 1
+                if _P(e['prev.untilDateTime']) != Poly.atom(('sym', '%s.transitionTime' % base)):
+                    problems.append('prev.untilDateTime is set to %r, not to the transition time of the current transition' % _P(e['prev.untilDateTime']))
+                problems.extend(guard_set_in_loop(g, lp))
+            norm = [i for i, (t_, v) in enumerate(eff)
+                    if t_ == 'call' and any(x[0] == 'fn' and x[1].endswith('normalizeDateTuple') for x in _P(v).atoms())]
+            i_st = [i for i, (t_, v) in enumerate(eff) if t_ == '%s.startDateTime' % base]
+            i_ep = [i for i, (t_, v) in enumerate(eff) if t_ == '%s.startEpochSeconds' % base]
+            if not (norm and i_st and i_ep and i_st[-1] < norm[0] < i_ep[0]):
+                problems.append('startDateTime is not normalised between its assignment and the computation of startEpochSeconds')
+        if until_paths == 0:
+            problems.append('no path writes prev.untilDateTime')
+        if problems:
+            R.violation('R8', cc, lp.loc, '; '.join(sorted(set(problems))))
+        nxt = [s for s in lp.a[4] if s.k == 'assign' and s.a[0].k == 'var' and s.a[0].a[0] == 'prev']
+        R.instance('R8', 'generateStartUntilTimes:prev-advances', lp.loc)
+        if not (nxt and path_of(nxt[-1].a[1]) == cur):
+            R.violation('R8', 'generateStartUntilTimes:prev-advances', lp.loc, 'the loop does not end with prev = <current transition>')
+    # ---- Python
+    pf = zs.fn('ZoneSpecifier._generate_start_until_times')
+    pc = 'ZoneSpecifier._generate_start_until_times:iteration'
+    R.instance('R8', pc, pf.loc)
+    loops = [s for s in pf.body if s.k == 'loop']
+    if len(loops) != 1:
+        R.violation('R8', pc, pf.loc, 'expected one loop over the transitions')
+        return
+    lp = loops[0]
+    var = lp.a[1][0].a[0].a[0] if lp.a[1] and lp.a[1][0].a[0].k == 'var' else 'transition'
+    summ = SymExec(lang='py').run(pf.name, lp.a[4], {})
+    want_start = {'%s.transitionTime.ss' % var: 1, 'prev.offsetSeconds': -1, 'prev.deltaSeconds': -1, '%s.offsetSeconds' % var: 1, '%s.deltaSeconds' % var: 1}
+    problems = []
+    until_paths = 0
+    for g, kind, res, eff in summ.paths:
+        e = effects_final(eff)
+        st = e.get('%s.startDateTime' % var)
+        if st is None:
+            problems.append('startDateTime is not assigned')
+            continue
+        ep = e.get('%s.startEpochSecond' % var)
+        tzs = fn_atoms_in(_P(ep), 'timezone') if ep is not None else []
+        inner = set()
+        for a in tzs:
+            inner.update(fn_atoms_in(Poly.atom(a), 'timedelta'))
+        tds = [a for a in (fn_atoms_in(_P(ep), 'timedelta') if ep is not None else []) if a not in inner]
+        secs = None
+        for a in tds:
+            for x in a[2]:
+                if isinstance(x, tuple) and x and x[0] == 'kw' and x[1] == 'seconds':
+                    secs = _P(x[2])
+        l = lin(secs) if secs is not None else None
+        if l is None or l[1] != 0 or l[0] != want_start:
+            problems.append('the shift applied to the transition time is %r, expected tt.ss - prev.offset - prev.delta + t.offset + t.delta' % secs)
+        sta = _atom(_P(st))
+        if not (sta and sta[0] == 'fn' and sta[1].endswith('DateTuple')
+                and {x[1] for x in sta[2] if isinstance(x, tuple) and x and x[0] == 'kw'} == {'y', 'M', 'd', 'ss', 'f'}
+                and all(repr(_P(x[2])).count('st.') >= 1 for x in sta[2] if x[1] != 'f')):
+            problems.append('startDateTime is not the date tuple of the shifted time')
+        off = None
+        for a in tzs:
+            for b in fn_atoms_in(Poly.atom(a), 'timedelta'):
+                for x in b[2]:
+                    if isinstance(x, tuple) and x and x[0] == 'kw' and x[1] == 'seconds':
+                        off = _P(x[2])
+        l = lin(off) if off is not None else None
+        if l is None or l[1] != 0 or l[0] != {'%s.offsetSeconds' % var: 1, '%s.deltaSeconds' % var: 1}:
+            problems.append('the start instant is taken in the offset %r, expected the current transition\'s offset + delta' % off)
+        if 'prev.untilDateTime' in e:
+            until_paths += 1
+            if _P(e['prev.untilDateTime']) != Poly.atom(('sym', '%s.transitionTime' % var)):
+                problems.append('prev.untilDateTime is set to %r, not to the transition time of the current transition' % _P(e['prev.untilDateTime']))
+            problems.extend(guard_set_in_loop(g, lp))
+    if until_paths == 0:
+        problems.append('no path writes prev.untilDateTime')
+    if problems:
+        R.violation('R8', pc, lp.loc, '; '.join(sorted(set(problems))))
+    nxt = [s for s in lp.a[4] if s.k == 'assign' and s.a[0].k == 'var' and s.a[0].a[0] == 'prev']
+    R.instance('R8', 'ZoneSpecifier._generate_start_until_times:prev-advances', lp.loc)
+    if not (nxt and path_of(nxt[-1].a[1]) == var):
+        R.violation('R8', 'ZoneSpecifier._generate_start_until_times:prev-advances', lp.loc, 'the loop does not end with prev = <current transition>')
+    # fix_transition_times on both sides: expand with the *previous* transition's offsets, then advance prev
+    for side, fobj in (('C++', lib.fn(XP + 'fixTransitionTimes')), ('Python', zs.fn('ZoneSpecifier._fix_transition_times'))):
+        name = 'fixTransitionTimes' if side == 'C++' else 'ZoneSpecifier._fix_transition_times'
+        lps = [s for s in fobj.body if s.k == 'loop']
+        if len(lps) != 1:
+            R.instance('R8', name + ':previous-offsets', fobj.loc)
+            R.violation('R8', name + ':previous-offsets', fobj.loc, 'expected one loop over the transitions')
+            continue
+        expand_uses(fobj, lps[0].a[4], 'prev', name + ':previous-offsets')
+        adv = [s for s in lps[0].a[4] if s.k == 'assign' and s.a[0].k == 'var' and s.a[0].a[0] == 'prev']
+        R.instance('R8', name + ':prev-advances', fobj.loc)
+        if not adv or lps[0].a[4][-1] is not adv[-1]:
+            R.violation('R8', name + ':prev-advances', fobj.loc, 'the loop does not end with prev = <current transition>')
+    # the last transition's until time is expanded with that transition's own offsets
+    tail = cf.body[cf.body.index(loops_c[0]) + 1:] if loops_c else []
+    expand_uses(cf, tail, 'prev', 'generateStartUntilTimes:last-until')
+    tail = pf.body[pf.body.index(lp) + 1:]
+    expand_uses(pf, tail, var, 'ZoneSpecifier._generate_start_until_times:last-until')
 
 
 def _fmt_sel(x):
@@ -951,6 +1169,32 @@ SELFTEST = [
     dict(id='python-default-window-13', file='tools/zonedb/zone_specifier.py', find='            viewing_months: int = 14,', replace='            viewing_months: int = 13,', rule='R3'),
     dict(id='cpp-window-year-spelling-silent', file='src/ace_time/ExtendedZoneProcessor.h',
          find='        (int8_t) (year - LocalDate::kEpochYear - 1), 12 };', replace='        (int8_t) (year - 1 - LocalDate::kEpochYear), 12 };', expect='silent'),
+    dict(id='cpp-start-ignores-previous-offsets', file='src/ace_time/ExtendedZoneProcessor.h',
+         find='            - prev->offsetMinutes - prev->deltaMinutes\n            + t->offsetMinutes + t->deltaMinutes);', replace='            + t->deltaMinutes);', rule='R8'),
+    dict(id='python-start-delta-sign', file='tools/zonedb/zone_specifier.py',
+         find='                    + transition.offsetSeconds + transition.deltaSeconds)', replace='                    + transition.offsetSeconds - transition.deltaSeconds)', rule='R8'),
+    dict(id='cpp-start-epoch-in-previous-offset', file='src/ace_time/ExtendedZoneProcessor.h',
+         find='            * (st.minutes - (t->offsetMinutes + t->deltaMinutes));', replace='            * (st.minutes - (prev->offsetMinutes + prev->deltaMinutes));', rule='R8'),
+    dict(id='python-start-epoch-without-delta', file='tools/zonedb/zone_specifier.py',
+         find='            utc_offset_seconds = transition.offsetSeconds \\\n                + transition.deltaSeconds', replace='            utc_offset_seconds = transition.offsetSeconds', rule='R8'),
+    dict(id='cpp-prev-never-advances', file='src/ace_time/ExtendedZoneProcessor.h', find='        prev = t;\n        isAfterFirst = true;', replace='        isAfterFirst = true;', rule='R8'),
+    dict(id='cpp-after-first-never-set', file='src/ace_time/ExtendedZoneProcessor.h', find='        prev = t;\n        isAfterFirst = true;', replace='        prev = t;', rule='R8'),
+    dict(id='cpp-start-not-normalised', file='src/ace_time/ExtendedZoneProcessor.h', find='        normalizeDateTuple(&t->startDateTime);\n', replace='', rule='R8'),
+    dict(id='python-fix-times-with-own-offsets', file='tools/zonedb/zone_specifier.py',
+         find='                prev.offsetSeconds,\n                prev.deltaSeconds,\n            )', replace='                transition.offsetSeconds,\n                transition.deltaSeconds,\n            )', rule='R8'),
+    dict(id='cpp-fix-times-prev-stuck', file='src/ace_time/ExtendedZoneProcessor.h', regex=True,
+         find=r'(            prev->offsetMinutes, prev->deltaMinutes\);\n)        prev = curr;\n', replace=r'\1', rule='R8'),
+    dict(id='cpp-last-until-without-delta', file='src/ace_time/ExtendedZoneProcessor.h',
+         find='      expandDateTuple(&untilTime, &untilTimeS, &untilTimeU,\n          prev->offsetMinutes, prev->deltaMinutes);',
+         replace='      expandDateTuple(&untilTime, &untilTimeS, &untilTimeU,\n          prev->offsetMinutes, 0);', rule='R8'),
+    dict(id='cpp-start-regrouped-silent', file='src/ace_time/ExtendedZoneProcessor.h',
+         find='        int16_t minutes = tt.minutes + (\n            - prev->offsetMinutes - prev->deltaMinutes\n            + t->offsetMinutes + t->deltaMinutes);',
+         replace='        int16_t minutes = tt.minutes - (prev->offsetMinutes + prev->deltaMinutes)\n            + (t->offsetMinutes + t->deltaMinutes);', expect='silent'),
+    dict(id='cpp-until-unconditional-silent', file='src/ace_time/ExtendedZoneProcessor.h',
+         find='        if (isAfterFirst) {\n          prev->untilDateTime = tt;\n        }', replace='        prev->untilDateTime = tt;', expect='silent'),
+    dict(id='python-start-inlined-silent', file='tools/zonedb/zone_specifier.py',
+         find='            z = timezone(timedelta(seconds=utc_offset_seconds))\n            dt = st.replace(tzinfo=z)',
+         replace='            dt = st.replace(tzinfo=timezone(timedelta(seconds=utc_offset_seconds)))', expect='silent'),
     dict(id='python-compare-rewritten-silent', file='tools/zonedb/zone_specifier.py',
          find='    if match_until <= transition_time:\n        return 2\n\n    return 1', replace='    if transition_time < match_until:\n        return 1\n    return 2', expect='silent'),
     dict(id='cpp-era-compare-reordered-silent', file='src/ace_time/ExtendedZoneProcessor.h',
